@@ -322,20 +322,6 @@ void cop(string *a) {
       rec("PINFO " + a[1] + " fn=" + implode(sort_array(functions(o, 0), 1), ",") + " var=" + implode(variables(o, 0), ",") + " inh=" + implode(inherit_list(o), ",") + " dump=" + n + ":" + h);
     }
     break;
-  case "xco":     // xco <id> <ob> <fn> [arg]: call_other from this object; the outcome is one record
-    {
-      mixed r;
-      e = 0;
-      o = find_object(a[2]);
-      if (!o) e = catch(o = load_object(a[2]));
-      if (o) { if (sizeof(a) > 4) e = catch(r = call_other(o, a[3], a[4])); else e = catch(r = call_other(o, a[3])); }
-      rec("XR " + a[1] + " " + (e ? "err:" + replace_string(replace_string(e, "\n", ""), " ", "_") : (stringp(r) ? r : (intp(r) ? "int:" + r : "other"))));
-    }
-    break;
-  case "xreload": // xreload <ob>: destruct the blueprint, the next call loads it again (new program)
-    o = find_object(a[1]);
-    if (o) destruct(o);
-    break;
   case "pdump":   // pdump <file>: the whole program dump, one record per line (for looking at a replay)
     o = find_object(a[1]);
     if (o) { string d, l; catch(dump_prog(o, 3, "/pdump.txt")); d = read_file("/pdump.txt"); if (d) foreach (l in explode(d, "\n")) rec("PD " + l); }
@@ -349,6 +335,38 @@ void cop(string *a) {
   case "rcall":   // remove every pending call_out of this object that carries a value
     while (remove_call_out("co_val") != -1) n++;
     if (handles) { foreach (v in keys(handles)) if (v[0] == 'v') { remove_call_out(handles[v]); map_delete(handles, v); } }
+    break;
+  }
+}
+
+// call and compile operations (C07, C02)
+void xop(string *a) {
+  string v; object o; mixed e;
+  v = a[0];
+  switch (v) {
+  case "xco":     // xco <id> <ob> <fn> [arg]: call_other from this object; the outcome is one record
+    {
+      mixed r;
+      e = 0;
+      o = find_object(a[2]);
+      if (!o) e = catch(o = load_object(a[2]));
+      if (o) { if (sizeof(a) > 4) e = catch(r = call_other(o, a[3], a[4])); else e = catch(r = call_other(o, a[3])); }
+      rec("XR " + a[1] + " " + (e ? "err:" + replace_string(replace_string(e, "\n", ""), " ", "_") : (stringp(r) ? replace_string(replace_string(r, "\n", "\\n"), " ", "_") : (intp(r) ? "int:" + r : "other"))));
+    }
+    break;
+  case "comp":    // comp <id> <file>: compile a file (load_object), report, and destruct what was loaded
+    {
+      object q;
+      e = catch(q = load_object(a[2]));
+      rec("COMP " + a[1] + " " + a[2] + " ok=" + (q ? 1 : 0) + " err=" + (e ? replace_string(replace_string(e, "\n", ""), " ", "_")[0..80] : "0"));
+      if (q) destruct(q);
+      q = find_object(a[2]);
+      if (q) destruct(q);
+    }
+    break;
+  case "xreload": // xreload <ob>: destruct the blueprint, the next call loads it again (new program)
+    o = find_object(a[1]);
+    if (o) destruct(o);
     break;
   }
 }
@@ -647,8 +665,11 @@ void do_op(string op) {
   case "wclone": case "wload": case "whold": case "wdump": case "walk": case "lname": case "wmove": case "wmoves": case "wdest":
     wop(a);
     break;
-  case "mk": case "put": case "cyc": case "uncyc": case "share": case "cov": case "covf": case "itv": case "drop": case "clearall": case "rb": case "many": case "use": case "memstat": case "rcall": case "dslot": case "dkids": case "pinfo": case "pdump": case "xco": case "xreload":
+  case "mk": case "put": case "cyc": case "uncyc": case "share": case "cov": case "covf": case "itv": case "drop": case "clearall": case "rb": case "many": case "use": case "memstat": case "rcall": case "dslot": case "dkids": case "pinfo": case "pdump":
     cop(a);
+    break;
+  case "xco": case "xreload": case "comp":
+    xop(a);
     break;
   case "uclone": case "uload": case "useteuid": case "uexport": case "uids": case "ucall": case "ucf": case "uvs": case "umclone":
     uop(a);
